@@ -57,6 +57,30 @@ def plan_rules(ctx, F, rid):
     loops = cfg.loops()
     heads = set(loops.keys())
     exits = set(cfg.exits())
+    # A merge pass over the two sorted maps (instead of one lookup per entry) is another algorithm: it is right exactly when
+    # the keys are compared in the order the maps iterate in (Path's component order).  A comparison of the raw bytes / strings
+    # of the paths is a different order (`lib/x.rs` vs `lib.rs`) - that is a violation; a merge pass that compares the paths
+    # themselves is outside what this rule models.
+    merge = []
+    for bodyx in F.nested('plan::build_plan') + [x for k_, x in F.bodies.items() if k_.startswith('plan::') and k_.split('::{')[0] not in ('plan::build_plan', 'plan::is_excluded', 'plan::glob_match', 'plan::needs_transfer') and '::tests' not in k_]:
+        xfl = flow_of(bodyx)
+        for cb_, ct_ in xfl.calls(lambda c: c in ('std::cmp::Ord::cmp', 'std::cmp::PartialOrd::partial_cmp')):
+            tys = ' '.join(bodyx.local_ty(a['p']['l']) for a in ct_['args'] if a['k'] != 'const')
+            if 'Path' in tys or 'OsStr' in tys or 'str' in tys or '[u8]' in tys:
+                raw = 'Path' not in tys or any(o.kind == 'call' and str(o.key).split('::')[-1] in ('as_os_str', 'as_encoded_bytes', 'to_string_lossy', 'to_str', 'as_bytes', 'as_str', 'display', 'to_string')
+                                               for a in ct_['args'] if a['k'] != 'const' for o in xfl.origins(a))
+                merge.append((bodyx, cb_, raw))
+    called = {c for c in (callee(t_) for _, t_ in fl.calls(lambda c: True))}
+    merge = [m_ for m_ in merge if m_[0].path.split('::{')[0] == 'plan::build_plan' or m_[0].path.split('::{')[0] in called]
+    if merge:
+        rawm = [m_ for m_ in merge if m_[2]]
+        if rawm:
+            ctx.bad(rid, 'build_plan:merge-order', 'build_plan walks the two listings in one merge pass and compares the keys as raw bytes / strings: the maps iterate in Path (component) order, '
+                    'where `lib/x.rs` < `lib.rs`, the bytes say the opposite - around such a pair the pass mis-aligns, a file present on both sides is re-sent and/or lands in the delete set',
+                    term_loc(rawm[0][0], rawm[0][1]))
+        else:
+            ctx.undecided(rid, 'build_plan is a merge pass over both listings (keys compared as paths): membership is not decided by the per-entry rules')
+        return
 
     def field_of(op):
         for o in fl.origins(op):
